@@ -196,8 +196,9 @@ func sortApplicationsByPriorityAndSubmissionTime(sortedApps []*Application) {
 func filterOnPendingResources(apps map[string]*Application) []*Application {
 	filteredApps := make([]*Application, 0)
 	for _, app := range apps {
-		// Only look at app when pending-res > 0
-		if resources.StrictlyGreaterThanZero(app.GetPendingResource()) {
+		// Only look at app when pending-res > 0, an application that is failing is not scheduled any more:
+		// whatever it would get is lost when it moves on to Failed
+		if resources.StrictlyGreaterThanZero(app.GetPendingResource()) && !app.IsFailing() {
 			filteredApps = append(filteredApps, app)
 		}
 	}
